@@ -70,3 +70,122 @@ Example C02_nonvacuous :
   c02_pre ex_p ex_f ex_sg = true /\ embeds ex_sg ex_p ex_f = true /\
   match Match ex_p ex_f [] with Ok r => c02_found ex_sg r | _ => false end = true.
 Proof. split; [exact ex_pre | split; [exact ex_embeds | exact ex_found]]. Qed.
+
+(** * Optional and inequality variables (Spec/EmbedOpt.v)
+
+    [embeds_opt sg p f]: as [embeds], but an optional variable "??x" may be
+    left unassigned (not in [sg]) where the matcher allows it to be absent:
+    as an object value whose key is missing from the message, and as the
+    variable of an array whose other elements use up the whole message array
+    (the matcher binds the variable to every left-over element and returns
+    the bindings without it only when nothing is left over).  Where the key
+    is present, or an element is left over, it stands for the message part
+    like a plain variable.  [c02_pre_opt] is [c02_pre] with optional
+    variables allowed; the assignment's names are a subset of the pattern's
+    variables containing all the non-optional ones. *)
+From Sheens Require Import Spec.EmbedOpt Proofs.MatchCompleteOpt Proofs.MatchCompleteIneq.
+
+Theorem C02_match_complete_optional :
+  forall ord, perm_oracle ord -> forall p f sg,
+  c02_pre_opt p f sg = true -> embeds_opt sg p f = true ->
+  exists n0, forall fuel, n0 <= fuel ->
+    exists bss, match_ ord fuel p f [] = Ok bss /\ In sg bss.
+Proof. exact match_complete_opt. Qed.
+Print Assumptions C02_match_complete_optional.
+
+(** non-vacuity: optional variables as object values (key present, key
+    missing) and as array variables (assigned; unassigned with nothing left
+    over), with a repeated plain and a property variable *)
+Example C02_optional_nonvacuous :
+  existsb is_optional (pvars exo_p) = true /\
+  c02_pre_opt exo_p exo_f exo_sg = true /\ embeds_opt exo_sg exo_p exo_f = true /\
+  match Match exo_p exo_f [] with Ok r => c02_found exo_sg r | _ => false end = true.
+Proof.
+  split; [exact exo_has_optional | split; [exact exo_pre | split; [exact exo_embeds | exact exo_found]]].
+Qed.
+
+(** the two restrictions in [embeds_opt] are needed: with an element left
+    over, resp. with the key present, the assignment without the optional
+    variable embeds the rest of the pattern but is not returned *)
+Theorem C02_optional_array_leftover_refuted :
+  exists xs s fa sg,
+    is_optional s = true /\ unassigned sg s = true /\
+    c02_pre_opt (JArr (xs ++ [JStr s])) (JArr fa) sg = true /\
+    embeds sg (JArr xs) (JArr fa) = true /\
+    match Match (JArr (xs ++ [JStr s])) (JArr fa) [] with
+    | Ok r => c02_found sg r
+    | _ => true
+    end = false.
+Proof. exact optional_array_leftover_refuted. Qed.
+Print Assumptions C02_optional_array_leftover_refuted.
+
+Theorem C02_optional_present_key_refuted :
+  exists k s kvs fkvs sg,
+    is_optional s = true /\ unassigned sg s = true /\
+    c02_pre_opt (JObj ((k, JStr s) :: kvs)) (JObj fkvs) sg = true /\
+    embeds sg (JObj kvs) (JObj fkvs) = true /\
+    match Match (JObj ((k, JStr s) :: kvs)) (JObj fkvs) [] with
+    | Ok r => c02_found sg r
+    | _ => true
+    end = false.
+Proof. exact optional_present_key_refuted. Qed.
+Print Assumptions C02_optional_present_key_refuted.
+
+(** Inequality variables.  [bs0] gives a numeric bound for each of the
+    pattern's inequality variables (and nothing else, [c02_pre_ineq]); in
+    [embeds_ineq bs0 sg p f] the message has, at the position of "?<n", a
+    number below the bound and [sg] assigns that number to the plain
+    counterpart "?n" (likewise "?<=n", "?>n", "?>=n", "?!=n"); every other
+    variable is as in [embeds_opt].  The matcher started from the bounds
+    returns the bounds together with the assignment.  Arrays, repeated
+    inequality variables and counterparts that also occur as plain
+    variables are included. *)
+Theorem C02_match_complete_inequality :
+  forall ord, perm_oracle ord -> forall p f bs0 sg,
+  c02_pre_ineq p f bs0 sg = true -> embeds_ineq bs0 sg p f = true ->
+  exists n0, forall fuel, n0 <= fuel ->
+    exists bss, match_ ord fuel p f bs0 = Ok bss /\ In (bunion bs0 sg) bss.
+Proof. exact match_complete_ineq. Qed.
+Print Assumptions C02_match_complete_inequality.
+
+(** non-vacuity: inequality variables as object values, inside an array and
+    as the variable of an array, one of them repeated, one whose counterpart
+    is also a plain variable of the pattern, next to an optional variable *)
+Example C02_inequality_nonvacuous :
+  negb (forallb no_ineq_var (pvars exi_p)) = true /\
+  c02_pre_ineq exi_p exi_f exi_bs0 exi_sg = true /\ embeds_ineq exi_bs0 exi_sg exi_p exi_f = true /\
+  match Match exi_p exi_f exi_bs0 with Ok r => c02_found (bunion exi_bs0 exi_sg) r | _ => false end = true.
+Proof.
+  split; [exact exi_has_inequality | split; [exact exi_pre | split; [exact exi_embeds | exact exi_found]]].
+Qed.
+
+(** the supported fragment never reports an error, whatever kinds of
+    variables the pattern has and whatever variable-free bindings are given *)
+Theorem C02_supported_no_error_any_variables :
+  forall ord, perm_oracle ord -> forall fuel p f bs,
+  supported p = true -> var_free f = true -> var_free_bs bs = true ->
+  match_ ord fuel p f bs <> Err.
+Proof. exact match_supported_no_err_any_vars. Qed.
+Print Assumptions C02_supported_no_error_any_variables.
+
+(** the notions with optional variables extend the plain ones: under
+    [c02_pre] (all variables plain) the side conditions carry over and the
+    two embeddings coincide, so [C02_match_complete] is an instance of
+    [C02_match_complete_optional] *)
+Theorem C02_optional_extends_plain :
+  forall p f sg, c02_pre p f sg = true ->
+  c02_pre_opt p f sg = true /\ embeds_opt sg p f = embeds sg p f.
+Proof. exact embeds_opt_extends_embeds. Qed.
+Print Assumptions C02_optional_extends_plain.
+
+(** and the statement with bounds extends the one with optional variables:
+    with no bounds (hence no inequality variables) the side conditions carry
+    over, the returned set is the assignment itself and the embedding is
+    kept, so [C02_match_complete_optional] is an instance of
+    [C02_match_complete_inequality] *)
+Theorem C02_inequality_extends_optional :
+  forall p f sg, c02_pre_opt p f sg = true ->
+  c02_pre_ineq p f [] sg = true /\ bunion [] sg = sg /\
+  (embeds_opt sg p f = true -> embeds_ineq [] sg p f = true).
+Proof. exact embeds_ineq_extends_opt. Qed.
+Print Assumptions C02_inequality_extends_optional.
